@@ -222,20 +222,15 @@ Proof.
   assert (Hk : forall k, kind_of s' k = kind_of s k) by (intros; now apply kind_of_rinfo).
   split; [auto|]. split; [|split].
   - eapply InvT_frame; eauto.
-  - eapply InvI_frame; eauto.
-    + intros k. now rewrite Hr.
-    + intros t. now apply Hs.
-  - eapply InvS_frame; eauto.
-    + intros k _. now rewrite (res_of_rinfo s s' k (Hr k)).
-    + intros k. now rewrite Hr.
-    + intros t. now apply Hs.
+  - eapply InvI_frame; eauto; intros; try (now rewrite Hr); try (now apply Hs).
+  - eapply InvS_frame; eauto; intros; try (now rewrite Hr); try (now apply Hs); try (now rewrite (res_of_rinfo s s' _ (Hr _))).
 Qed.
 
 Lemma Inv_nf rules c s : Inv rules c s -> nf s. Proof. now intros [H _]. Qed.
 
 Lemma Inv_touch rules c s k : Inv rules c s -> Inv rules c (touch s k).
 Proof.
-  intros H. pose proof H as (Hn & HT & _). eapply Inv_frame; eauto; try (now autorewrite with iv).
+  intros H. pose proof H as (Hn & HT & _). apply (Inv_frame rules c s); auto; try (now autorewrite with iv).
   - now apply nf_touch.
   - apply nodup_rules_touch, HT.
   - intros k'. now autorewrite with iv.
@@ -244,7 +239,6 @@ Qed.
 
 Lemma Inv_iemit rules c s e : Inv rules c s -> Inv rules c (iemit s e).
 Proof.
-  intros H. pose proof H as (Hn & HT & _). eapply Inv_frame; eauto; try (now autorewrite with iv).
-  - now apply nf_iemit.
-  - apply HT.
+  intros H. pose proof H as (Hn & HT & _).
+  apply (Inv_frame rules c s); auto; try (now autorewrite with iv); try (now apply nf_iemit); try apply HT.
 Qed.
